@@ -281,15 +281,28 @@ void run_exec(const ExecPlan &pl) {
                             size_t pe = pi + 1;
                             while (pe < pts.size() && pts[pe].acc) ++pe;          // the segment's points: up to the next refused one
                             __int128 dx, dy;
-                            long long icpt = (long long) c.get_floating_point_segment(c.get_first_x()).second;
+                            auto reported = c.get_floating_point_segment(c.get_first_x());
+                            long long icpt = (long long) reported.second;
                             if (pe - pi == 1) { dx = 1; dy = 0; }
                             else { dx = (__int128) rect[3].x - (__int128) rect[1].x; dy = (__int128) rect[3].y - (__int128) rect[1].y; }
+                            // the exact slope is known when the reported one is the rectangle's max-slope diagonal (what the code
+                            // reports for integer keys); a different (still legitimate) choice of line is evaluated in long double,
+                            // ties and the last 1e-12 of the distance in its favour
+                            bool exact_known = dx > 0 && reported.first == (long double) dy / (long double) dx;
                             __int128 best = -1; bool best_exact = true;
                             for (size_t q = pi; q < pe; ++q) {
-                                __int128 num = dy * ((__int128) pts[q].x - (__int128) c.get_first_x()) + ((__int128) icpt - (__int128) pts[q].y) * dx;
-                                if (num < 0) num = -num;
-                                __int128 r2 = 2 * num / dx;
-                                bool ex = (2 * num) % dx == 0;
+                                __int128 r2; bool ex;
+                                if (exact_known) {
+                                    __int128 num = dy * ((__int128) pts[q].x - (__int128) c.get_first_x()) + ((__int128) icpt - (__int128) pts[q].y) * dx;
+                                    if (num < 0) num = -num;
+                                    r2 = 2 * num / dx;
+                                    ex = (2 * num) % dx == 0;
+                                } else {
+                                    long double v = reported.first * (pts[q].x - (long double) c.get_first_x()) + (long double) icpt - (long double) pts[q].y;
+                                    v = std::fabs(v) * 2 * (1 - 1e-12L);
+                                    r2 = v > 1.9e9L ? (__int128) 2000000000 : (__int128) std::floor(v);
+                                    ex = true;
+                                }
                                 if (r2 > best || (r2 == best && !ex)) { best = r2; best_exact = ex; }
                             }
                             res2.push_back({(long long) std::min<__int128>(best, 2000000000), best_exact ? 1 : 0, (long long) (pe - pi)});
